@@ -512,7 +512,88 @@ func oracleHoverElements(c *caseCtx, q core.Query, r core.Result) {
 			}
 			c.Rep.NonTrivial("element|value|" + exprKind(cls.Attr.Expr) + "|" + c.Spec.Mut.Kind)
 		}
+		// a literal operand of operators the expected type admits is a sub-expression the
+		// schema can interpret: hover must describe it (valid files only)
+		if ae, ok := anyExprOf(cls); ok && c.Spec.Mut.Kind == "none" && !cls.InDyn {
+			if typ, ok := operandLiteralAt(cls.Attr.Expr, ae.OfType, q.Pos.Byte, 0); ok {
+				c.Rep.Count("operator_operand_cursors", 1)
+				if hd == nil {
+					viol("HOVER-ELEMENT missing on=literal-operand-of-admitted-operator", fmt.Sprintf("no hover on a %s literal that is an operand of an operator whose result converts to the expected %s (attribute %q)", typ, ae.OfType.FriendlyName(), cls.Attr.Name), "_"+typ+"_")
+				}
+			}
+		}
 	}
+}
+
+func anyExprOf(cls model.PosClass) (schema.AnyExpression, bool) {
+	if cls.Attr == nil || cls.AttrSchema == nil {
+		return schema.AnyExpression{}, false
+	}
+	ae, ok := cls.AttrSchema.Constraint.(schema.AnyExpression)
+	if !ok || ae.OfType == cty.NilType {
+		return ae, false
+	}
+	return ae, true
+}
+
+// operandLiteralAt: is the byte strictly inside a number / bool literal that is reached from
+// the expression through operators (and parentheses, template interpolations) only, each of
+// whose result type the type expected at that place admits? Returns the literal's type name.
+func operandLiteralAt(e hclsyntax.Expression, want cty.Type, off, depth int) (string, bool) {
+	if depth > 12 || e == nil || !(e.Range().Start.Byte <= off && off < e.Range().End.Byte) {
+		return "", false
+	}
+	switch t := e.(type) {
+	case *hclsyntax.BinaryOpExpr:
+		if t.Op == nil || !opFits(t.Op.Type, want) {
+			return "", false
+		}
+		ps := t.Op.Impl.Params()
+		if len(ps) != 2 {
+			return "", false
+		}
+		if s, ok := operandLiteralAt(t.LHS, ps[0].Type, off, depth+1); ok {
+			return s, depth >= 0
+		}
+		return operandLiteralAt(t.RHS, ps[1].Type, off, depth+1)
+	case *hclsyntax.UnaryOpExpr:
+		if t.Op == nil || !opFits(t.Op.Type, want) {
+			return "", false
+		}
+		ps := t.Op.Impl.Params()
+		if len(ps) != 1 {
+			return "", false
+		}
+		return operandLiteralAt(t.Val, ps[0].Type, off, depth+1)
+	case *hclsyntax.ParenthesesExpr:
+		return operandLiteralAt(t.Expression, want, off, depth)
+	case *hclsyntax.TemplateExpr:
+		if t.IsStringLiteral() || !(want == cty.String || want == cty.DynamicPseudoType) {
+			return "", false
+		}
+		for _, part := range t.Parts {
+			if _, isOp := part.(*hclsyntax.BinaryOpExpr); isOp {
+				if s, ok := operandLiteralAt(part, cty.String, off, depth+1); ok {
+					return s, true
+				}
+			}
+		}
+		return "", false
+	case *hclsyntax.LiteralValueExpr:
+		if depth == 0 || t.Val.IsNull() || !t.Val.IsKnown() {
+			return "", false // only operands: a literal that is the whole value is decided elsewhere
+		}
+		if !(t.Range().Start.Byte < off) {
+			return "", false // strictly inside
+		}
+		switch {
+		case t.Val.Type() == cty.Number && (want == cty.Number || want == cty.DynamicPseudoType):
+			return "number", true
+		case t.Val.Type() == cty.Bool && (want == cty.Bool || want == cty.DynamicPseudoType):
+			return "bool", true
+		}
+	}
+	return "", false
 }
 
 // ---------------------------------------------------------------- C13 exactness of structure tokens
